@@ -993,7 +993,7 @@ fn monitor_gains(s: &mut Session, r: &mut Rng, emit: bool) {
 
 pub fn run(args: &Args) {
 	let mut rng = Rng::new(args.seed ^ 0xC15);
-	let n: u64 = (if args.thorough { 6000 } else { 600 }) * args.budget_mul;
+	let n: u64 = (if args.thorough { 6000 } else { 420 }) * args.budget_mul;
 	let mut s = Session::new(
 		"C15",
 		&args.out,
@@ -1051,6 +1051,24 @@ pub fn run(args: &Args) {
 			scn.ops.push((at, op));
 		}
 		run_check(&mut s, "tween", &scn, 4, true);
+	}
+	// ---- quaternions that are not orientations (outside the theorems' guard): non-unit ones are
+	// normalized by the listener interpolation (finite output required); the zero quaternion is
+	// recorded as a note only
+	{
+		for q in [Quat::from_xyzw(0.0, 0.0, 0.0, 2.0), Quat::from_xyzw(1.0, 1.0, 1.0, 1.0), Quat::from_xyzw(0.0, 3.0e-3, 0.0, 4.0e-3), Quat::from_xyzw(1.0e18, 0.0, 0.0, 1.0e18)] {
+			let mut w = Scn::base();
+			w.lq = q;
+			w.epos = Vec3::new(2.0, 1.0, -3.0);
+			run_check(&mut s, "non_unit_quaternion", &w, 2, true);
+		}
+		let mut w = Scn::base();
+		w.lq = Quat::from_xyzw(0.0, 0.0, 0.0, 0.0);
+		let o = run_scn(&w, 1);
+		if let Some(Outcome::Ok(f)) = o.cbs.first() {
+			s.notes.push(format!("zero quaternion (0,0,0,0) as listener orientation (not an orientation; outside the guard): output {:?}", f[0]));
+		}
+		s.eval_only("zero_quaternion_note");
 	}
 	// ---- spatial tracks nested in spatial tracks
 	for _ in 0..n / 4 {
